@@ -130,10 +130,15 @@ func TestC05(t *testing.T) {
 	m := mon.New(t, "C05")
 	defer m.Done()
 	bv := buildVariant()
-	m.Rule("case = (alg by index parity; digest size cycling over ALL sizes 1..64 for blake2b via New/New256/384/512, {32, keyed 16} for blake2s; key: nil/empty/boundary/every length 1..max in turn; message length by stratum: exact k*bs, k*bs±1, k*bs±2, 0..bs, dense-near-multiple, uniform 0..2000; chunking single/bytewise/blockwise/fill-then-rest/random incl. empty writes; up to 2 interleaved Sum(prefix) compared with the reference digest of the prefix; final Sum twice; Reset; second message hashed and compared with a fresh keyed reference digest). Every case is executed on EVERY dispatch variant in VerifImpls() (forced with VerifSetImpl) and in the purego build; each Write operand is copied to end (or start) at a PROT_NONE guard page and scribbled over (0xA5) as soon as Write returns, the caller's key slice is scribbled after the constructor returns and after Reset, Sum prefixes have none/small/large spare capacity inside a sentinel-filled backing array, and the last 8 slices returned by Sum are re-verified against snapshots after every later call (same and other digests). Oracle = RFC 7693 executable spec (h/ref/blake2), witnessed per case by python hashlib. One evaluation = one (case, variant) run; distinct = (alg, variant, size class, keyed, length class, chunk style).")
+	m.Rule("case = (alg by index parity; digest size cycling over ALL sizes 1..64 for blake2b via New/New256/384/512, {32, keyed 16} for blake2s; key: nil/empty/boundary/every length 1..max in turn; message length by stratum: exact k*bs, k*bs±1, k*bs±2, 0..bs, dense-near-multiple, uniform 0..2000; chunking single/bytewise/blockwise/fill-then-rest/random incl. empty writes; up to 2 interleaved Sum(prefix) compared with the reference digest of the prefix; final Sum twice; Reset; second message hashed and compared with a fresh keyed reference digest). Every case is executed on EVERY dispatch variant in VerifImpls() (forced with VerifSetImpl) and in the purego build; each Write operand is copied to end (or start) at a PROT_NONE guard page and scribbled over (0xA5) as soon as Write returns, the caller's key slice is scribbled after the constructor returns and after Reset, Sum prefixes have none/small/large spare capacity inside a sentinel-filled backing array, and the last 8 slices returned by Sum are re-verified against snapshots after every later call (same and other digests). Oracle = RFC 7693 executable spec (h/ref/blake2), witnessed per case by python hashlib. Concurrency stream (all builds; the only stream in the -race build): rounds of 4..8 barrier-started goroutines, each driving its OWN hash.Hash scenario (keyed/unkeyed, optional MarshalBinary->UnmarshalBinary hand-over) and calling the SHARED package-level Sum512/384/256 / blake2s.Sum256 on shared read-only inputs; expected digests precomputed single-threaded from the reference, judged after join; every fourth round under GOMAXPROCS(1) with Gosched between operations; interleavings are scheduler-chosen. One evaluation = one (case, variant) run or one goroutine job; distinct = (alg, variant, size class, keyed, length class, chunk style).")
 	m.Assume("h/ref/blake2 implements RFC 7693 (unit test: RFC appendix A/B/E vectors, 768 official keyed KATs, 4608 hashlib comparisons); python hashlib.blake2b/blake2s (reference C implementation) is an independent second witness, disagreement between the two is reported as inconclusive; VerifSetImpl really selects the named hashBlocks variant (hook file in /repo, build tag verif)")
 	if err := refb2.SelfTest(); err != nil {
 		m.Inconclusive("reference self-test failed: " + err.Error())
+		return
+	}
+	if mon.RaceBuild {
+		// -race variant: only the shared-value concurrency stream
+		c05concurrent(m)
 		return
 	}
 	// the ref-vs-hashlib comparison does not depend on the build variant: the
@@ -222,6 +227,8 @@ func TestC05(t *testing.T) {
 		}
 		a.setImpl("")
 	})
+
+	c05concurrent(m)
 
 	min := m.N(1500, 80000)
 	for _, a := range []*algo{algB, algS} {
